@@ -81,6 +81,11 @@ def strings_written(body):
     return consts, fmt
 
 
+def _shape(e):
+    from .c16 import _text_shape
+    return _text_shape(e)
+
+
 def run(chk, ctx) -> None:
     prog = ctx.prog
     sev = SEval(prog)
@@ -276,7 +281,9 @@ def run(chk, ctx) -> None:
                'the hand number written is the one asked for, else the integer recorded in the history; without either the call is refused')
     # Pluribus: seats are named from the history, else p1..pn; payoffs come from the recorded finishing stacks, else the replayed end
     facts = {
-        'default names p1..pn': bool(m.exprs(plur.node, "[f'p{i + 1}' for i in range(len(self.starting_stacks))]")),
+        'default names p1..pn': any(
+            isinstance(n, ast.ListComp) and T.alpha_eq(_shape(n.elt), _shape(ast.parse("f'p{i + 1}'", mode='eval').body), lambda nm: nm not in ('self',))
+            and m.eq(T.norm(n.generators[0].iter), 'range(len(self.starting_stacks))', fn=plur.node) for n in ast.walk(plur.node)),
         'recorded names': bool(m.assigns(plur.node, 'self.players')),
         'finishing stacks of the replay': bool(m.exprs(plur.node, 'tuple(self)[-1].stacks')),
         'recorded finishing stacks': bool(m.assigns(plur.node, 'self.finishing_stacks')),
@@ -286,6 +293,30 @@ def run(chk, ctx) -> None:
     chk.ob('C17.payoff', f'{plur.qualname}:sources', not missing, plur.loc,
            'Pluribus line: player names from the history (default p1..pn), payoffs from the recorded or the replayed finishing stacks',
            got=f'not found: {missing}' if missing else 'ok')
+    # the parser's replay loop: deal the hole cards first, consume the action text token by token, deal a board per `/`, deal the
+    # boards that are left, and refuse a line whose hand is not over
+    pf = prog.cls('ACPCProtocolParser').methods.get('_parse')
+    if pf is not None:
+        tbl = {
+            'every seat is dealt its hole cards before the actions': any(
+                isinstance(lp, (ast.For, ast.While)) and any(isinstance(c, ast.Call) and isinstance(c.func, ast.Attribute) and c.func.attr == 'deal_hole' and len(c.args) == 1
+                                                            for c in ast.walk(lp)) for lp in pf.node.body),
+            'the consumed token is cut off the action text': bool(m.full_assigns(pf.node, 'actions', 'actions[len(n.group()):]')) or bool(m.full_assigns(pf.node, 'actions', 'actions[n.end():]')),
+            'an unknown token is an error': any(any(isinstance(r, ast.Raise) for r in yes) for yes, no in m.when(pf.node, 'n is None')),
+            'each `/` burns a card and deals the next board': len(m.calls(pf.node, "state.burn_card('??')")) == 2 and len(m.calls(pf.node, 'state.deal_board(board_cards.popleft())')) == 2,
+            'a call is replayed unless everybody is all-in': any(
+                any(isinstance(c, ast.Call) and isinstance(c.func, ast.Attribute) and c.func.attr == 'check_or_call' for st in no for c in ast.walk(st))
+                and not any(isinstance(c, ast.Call) and isinstance(c.func, ast.Attribute) and c.func.attr == 'check_or_call' for st in yes for c in ast.walk(st))
+                for yes, no in m.when(pf.node, 'state.all_in_status')),
+            'an empty raise size means the default raise': any(isinstance(x, ast.If) and m.eq(T.cond(x.test), 'raw_amount', boolean=True, fn=pf.node) for x in ast.walk(pf.node))
+            or bool(m.exprs(pf.node, 'parse_value(raw_amount) if raw_amount else None')),
+            'a line whose hand does not end is refused': any(any(isinstance(r, ast.Raise) for r in yes) for yes, no in m.when(pf.node, 'state.status')),
+            'results, players and hand number are recorded': any('_results=results' in ast.unparse(n) and 'players=players' in ast.unparse(n) and 'hand=hand' in ast.unparse(n)
+                                                                 for n in ast.walk(pf.node) if isinstance(n, ast.Call)),
+        }
+        missing = [k for k, v in tbl.items() if not v]
+        chk.ob('C17.cumulative', 'ACPCProtocolParser._parse:replay', not missing, pf.loc,
+               'the protocol line is replayed token by token on a fresh state and only a finished hand is handed out', got=f'not found: {missing}' if missing else 'ok')
     # the parser replays on its own copy of the game, in cash-game mode, with everything but dealing and betting automated
     pc = prog.cls('ACPCProtocolParser')
     pi = pc.methods.get('__post_init__')
